@@ -359,6 +359,17 @@ def mergeOk (t : Ty) (opts : List Src) : Bool :=
   | some a => assignOk .assign t a          -- the plain assignment
   | none => mergeJoin t opts
 
+/-- `a if c else (b if c2 else d)`: the inner if-expression is merged first; when it is joined the outer merge sees a
+    temporary of the join type, otherwise a `_MergedBranch` object that can never be joined with `a`, and all three
+    options are redirected into the target. -/
+def nestedOk (t : Ty) (a b d : Src) : Bool :=
+  match sameLiteral [b, d] with
+  | some l => mergeOk t [a, l]
+  | none =>
+    match tryJoin [b, d] with
+    | some r => [b, d].all (fun o => initFront r o && backOk .assign r o) && mergeOk t [a, .rt r]
+    | none => [a, b, d].all (fun o => initFront t o && backOk .assign t o)
+
 /-! ## specification: the sentence of the property -/
 
 def litOf : Src → Option Int
@@ -479,8 +490,9 @@ def vhdlWellTyped : Ty → VVal → Bool
     `ok0 FORM T SRC`           -> 1 | 0                (assignOkUnpatched)
     `front T SRC` `initf T SRC` -> 1 | 0               (assignFront / initFront: the Python-level `_assign` / `T(v)`)
     `spec T SRC`               -> allowed | reject | grey
-    `merge T SRC SRC`          -> 1 | 0
-    `join SRC SRC`             -> type token | none
+    `merge T SRC SRC+`         -> 1 | 0                (flat merge of two or more options)
+    `nested T SRC SRC SRC`     -> 1 | 0                (`a if c else (b if c2 else d)`)
+    `join SRC SRC+`            -> type token | none
     `conv T S x`               -> integer              (convert, run-time source of type S)
     `convlit T SRC`            -> integer | none
     `cast FORM T S x`          -> integer | err | none (value of the cast chosen by castModel, read through T)
@@ -546,12 +558,15 @@ def handle : List String → String
   | ["spec", t, s] => match parseTy t, parseSrc s with
       | some t, some s => if allowed t s then "allowed" else if mustReject t s then "reject" else "grey"
       | _, _ => "bad-op"
-  | ["merge", t, a, b] => match parseTy t, parseSrc a, parseSrc b with
-      | some t, some a, some b => b01 (mergeOk t [a, b])
-      | _, _, _ => "bad-op"
-  | ["join", a, b] => match parseSrc a, parseSrc b with
-      | some a, some b => match tryJoin [a, b] with | some r => showTy r | none => "none"
+  | "merge" :: t :: srcs => match parseTy t, srcs.mapM parseSrc with
+      | some t, some (a :: b :: rest) => b01 (mergeOk t (a :: b :: rest))
       | _, _ => "bad-op"
+  | ["nested", t, a, b, d] => match parseTy t, parseSrc a, parseSrc b, parseSrc d with
+      | some t, some a, some b, some d => b01 (nestedOk t a b d)
+      | _, _, _, _ => "bad-op"
+  | "join" :: srcs => match srcs.mapM parseSrc with
+      | some (a :: b :: rest) => (match tryJoin (a :: b :: rest) with | some r => showTy r | none => "none")
+      | _ => "bad-op"
   | ["conv", t, s, x] => match parseTy t, parseTy s, x.toInt? with
       | some t, some s, some x => toString (convert t s x)
       | _, _, _ => "bad-op"
